@@ -166,6 +166,10 @@ func registerHeaps(w *World) {
 					defer func() { recover() }()
 					k, s := fieldHeapKey(tn.Type(), i)
 					heapSorts[k] = s
+					if sl, ok := st.Field(i).Type().Underlying().(*types.Slice); ok {
+						ek, es := elemHeapKey(sl.Elem())
+						heapSorts[ek] = es
+					}
 				}()
 			}
 		}
